@@ -1231,8 +1231,15 @@ func (c *rfCtx) rangeStmt(s *ast.RangeStmt, cur rfEnv, after func(rfEnv) string)
 	}
 	rfNoBranch(s.Body, "loop")
 	ast.Inspect(s.Body, func(n ast.Node) bool {
-		if r, ok := n.(*ast.ReturnStmt); ok {
-			dieAt(r, "return inside a loop")
+		switch x := n.(type) {
+		case *ast.ReturnStmt:
+			dieAt(x, "return inside a loop")
+		case *ast.ExprStmt: // a method that updates its receiver would change state the helper does not thread
+			if call, ok := x.X.(*ast.CallExpr); ok {
+				if id, ok := call.Fun.(*ast.Ident); !ok || id.Name != "panic" {
+					dieAt(x, "call statement inside a loop")
+				}
+			}
 		}
 		return true
 	})
